@@ -103,8 +103,38 @@ CASES = [
 ]
 
 
+# Hand-written histories with a waiter killed while blocked on a barrier of size 3 (on the unchanged tree such a program crashes the
+# simulator, so these cannot be recorded): actor 0 and 1 arrive, actor 2 kills actor 0 and arrives, actor 3 arrives later.
+def _h(*ls):
+    return "\n".join(ls) + "\n"
+
+
+_KSC = {"mode": "bar", "sizes": [3], "scripts": [["B0"], ["B0"], ["S1", "X0", "B0"], ["S2", "B0"]]}
+_KPRE = ["Q 0 B 0 - 0", "Q 1 B 0 - 0", "Q 2 X 0 - 1", "A 2 X 0 0 1 0", "Q 2 B 0 - 1"]
+SYNTHETIC = [
+    # (scenario, history, expected rule or None when it must be accepted)
+    (_KSC, _h(*_KPRE, "Q 3 B 0 - 2", "A 1 B 0 0 2 0", "D 1", "A 2 B 0 0 2 0", "D 2", "A 3 B 0 1 2 0", "D 3", "END 2"), None),   # the dead one left
+    (_KSC, _h(*_KPRE, "A 1 B 0 0 1 0", "D 1", "A 2 B 0 1 1 0", "D 2", "Q 3 B 0 - 2", "END 2"), None),                       # the dead one counts
+    (_KSC, _h("Q 0 B 0 - 0", "Q 1 B 0 - 0", "A 1 B 0 0 0 0", "D 1", "Q 2 X 0 - 1", "A 2 X 0 0 1 0", "Q 2 B 0 - 1", "Q 3 B 0 - 2",
+              "A 2 B 0 0 2 0", "D 2", "A 3 B 0 1 2 0", "D 3", "END 2"), "early-release"),                                     # released with 2 arrivals
+    (_KSC, _h(*_KPRE, "A 1 B 0 0 1 0", "D 1", "A 2 B 0 1 1 0", "D 2", "Q 3 B 0 - 2", "A 3 B 0 0 2 0", "D 3", "END 2"), "early-release"),  # both readings at once
+    (_KSC, _h(*_KPRE, "Q 3 B 0 - 2", "A 1 B 0 0 2 0", "D 1", "A 3 B 0 1 2 0", "D 3", "END 2"), "lost-release"),                 # actor 2 forgotten under either reading
+]
+
+
 def main():
     bad = 0
+    for sc, hist, rule in SYNTHETIC:
+        ctx = FakeCtx()
+        ok = O.check_bar(ctx, sc, hist, {})
+        if rule is None and (ctx.keys or not ok):
+            print("FAIL: compliant history with a killed waiter rejected", ctx.keys, hist)
+            bad += 1
+        elif rule is not None and (not ctx.keys or rule not in ctx.keys[0]):
+            print("FAIL: expected %s, got %r for\n%s" % (rule, ctx.keys, hist))
+            bad += 1
+        else:
+            print("ok   %-28s %s" % (rule or "accepted (killed waiter)", ctx.keys[0] if ctx.keys else ""))
     for chk, sc, corrupt, rule in CASES:
         res, out = G.run_one("hooks", sc)
         ctx = FakeCtx()
@@ -126,7 +156,7 @@ def main():
             bad += 1
         else:
             print("ok   %-28s %s" % (rule, ctx.keys[0]))
-    print("%d/%d corrupted histories rejected with the expected rule" % (len(CASES) - bad, len(CASES)))
+    print("%d/%d histories judged as expected" % (len(CASES) + len(SYNTHETIC) - bad, len(CASES) + len(SYNTHETIC)))
     return 1 if bad else 0
 
 
